@@ -142,6 +142,26 @@ impl<'tcx> Cx<'tcx> {
             if ptrs.is_empty() {
                 let bytes = a.inspect_with_uninit_and_ptr_outside_interpreter(0..len);
                 o.set("bytes", J::Arr(bytes.iter().map(|b| J::Int(*b as i128)).collect()));
+            } else if ptrs.len() > 1 {
+                // e.g. `static NAMES: [&[u8]; N]`: every pointer with its offset in this allocation, the offset it
+                // points at in its target and the target's bytes; the consumer pairs it with the length word that
+                // follows a fat pointer
+                let raw = a.inspect_with_uninit_and_ptr_outside_interpreter(0..len);
+                o.set("bytes", J::Arr(raw.iter().map(|b| J::Int(*b as i128)).collect()));
+                let mut ps = Vec::new();
+                for (off, prov) in ptrs.iter() {
+                    let mut po = J::obj();
+                    po.set("off", J::Int(off.bytes() as i128));
+                    if let GlobalAlloc::Memory(m) = tcx.global_alloc(prov.alloc_id()) {
+                        let m = m.inner();
+                        if m.provenance().ptrs().is_empty() {
+                            let bytes = m.inspect_with_uninit_and_ptr_outside_interpreter(0..m.len());
+                            po.set("target_bytes", J::Arr(bytes.iter().map(|b| J::Int(*b as i128)).collect()));
+                        }
+                    }
+                    ps.push(po);
+                }
+                o.set("ptrs", J::Arr(ps));
             } else if ptrs.len() == 1 {
                 // e.g. `static X: &[u8] = b"..."`: follow the single pointer
                 let (_, prov) = ptrs[0];
